@@ -620,11 +620,20 @@ func (b *BaseStore) Sync(ctx context.Context, heads []ipfslog.Entry) error {
 		return nil
 	}
 
+	loadable := make([]ipfslog.Entry, 0, len(heads))
 	for _, h := range heads {
-		if h == nil {
+		// a decoded `null` head is a typed nil pointer, which `h == nil` does not catch
+		if h == nil || !h.Defined() {
 			b.Logger().Debug("warning: Given input entry was 'null'.")
 			continue
 		}
+
+		if h.GetIdentity() == nil || h.GetClock() == nil || !h.GetClock().Defined() || !h.GetHash().Defined() {
+			b.Logger().Debug("warning: Given input entry is incomplete and was discarded (no identity, clock or hash)")
+			continue
+		}
+
+		loadable = append(loadable, h)
 
 		if h.GetNext() == nil {
 			h.SetNext([]cid.Cid{})
@@ -660,8 +669,12 @@ func (b *BaseStore) Sync(ctx context.Context, heads []ipfslog.Entry) error {
 		span.AddEvent("store-sync-head-verified")
 	}
 
+	if len(loadable) == 0 {
+		return nil
+	}
+
 	verifhook.At("store.sync.spawn", b)
-	go b.Replicator().Load(ctx, heads)
+	go b.Replicator().Load(ctx, loadable)
 
 	return nil
 }
